@@ -29,7 +29,7 @@ STAGES = ["simplified-logical", "tuned-logical", "physical", "simplified-physica
 
 CONFIG = {
     "quick": {"budget_s": 55, "programs": 1400, "validate_every": 8, "case_timeout_s": 60},
-    "thorough": {"budget_s": 660, "programs": 30000, "validate_every": 2, "case_timeout_s": 120},
+    "thorough": {"budget_s": 660, "programs": 8000, "validate_every": 2, "case_timeout_s": 120},
 }
 
 
